@@ -36,7 +36,7 @@ static unsigned char g_bin[8]; static size_t g_binlen;
 ares_status_t ares_dns_rr_set_bin_own(ares_dns_rr_t *rr, ares_dns_rr_key_t key, unsigned char *v, size_t l) { ares_status_t s = lg(K_BIN, key, 0, v, l, 0); if (s == ARES_SUCCESS) { g_binlen = l; for (size_t i = 0; i < 8; i++) if (i < l) g_bin[i] = v[i]; g_owned++; free(v); } return s; }
 static unsigned char g_optval[2][4];
 ares_status_t ares_dns_rr_set_opt_own(ares_dns_rr_t *rr, ares_dns_rr_key_t key, unsigned short opt, unsigned char *v, size_t l)
-{ int slot = g_n; ares_status_t s = lg(K_OPT, key, 0, v, l, opt); if (s == ARES_SUCCESS) { for (size_t i = 0; i < 4; i++) if (i < l && slot >= 3 && slot < 5) g_optval[slot - 3][i] = v[i]; if (v) { g_owned++; free(v); } } return s; }
+{ static int nopt; if (g_n == 0 || g_kind[g_n - 1] != K_OPT) nopt = 0; ares_status_t s = lg(K_OPT, key, 0, v, l, opt); if (s == ARES_SUCCESS) { for (size_t i = 0; i < 4; i++) if (i < l && nopt < 2) g_optval[nopt][i] = v[i]; nopt++; if (v) { g_owned++; free(v); } } return s; }
 static char ms_tok;
 ares_status_t ares_dns_rr_set_abin_own(ares_dns_rr_t *rr, ares_dns_rr_key_t key, ares_dns_multistring_t *s) { return lg(K_ABIN, key, 0, s, 0, 0); }
 ares_status_t ares_dns_multistring_parse_buf(ares_buf_t *buf, size_t remaining_len, ares_dns_multistring_t **strs, ares_bool_t vp) { if (nondet_bool() || ares_buf_consume(buf, remaining_len) != ARES_SUCCESS) return ARES_EBADRESP; *strs = (ares_dns_multistring_t *)&ms_tok; return ARES_SUCCESS; }
@@ -130,13 +130,30 @@ void h_parse_rdata(void)
 #ifdef CHECK_OPT
   __CPROVER_assert(g_n >= 3 && g_key[0] == ARES_RR_OPT_UDP_SIZE && g_val[0] == cls && g_key[1] == ARES_RR_OPT_VERSION && g_val[1] == ((ttl >> 16) & 0xff) && g_key[2] == ARES_RR_OPT_FLAGS && g_val[2] == (ttl & 0xffff), "C04: OPT overloading (RFC 6891): UDP size = CLASS, version = TTL[23:16], flags = TTL[15:0]");
   __CPROVER_assert(g_rec.raw_rcode == ((ttl >> 20) & 0x0ff0), "C04: extended RCODE = TTL[31:24] placed above the header's 4 bits");
-  { size_t o = r0; int k = 3;
+#define TLV_AT r0
+#define TLV_K 3
+#define TLV_KEY ARES_RR_OPT_OPTIONS
+#endif
+#ifdef CHECK_SVC
+  /* SVCB / HTTPS (RFC 9460): priority, target name, then the parameter list */
+  __CPROVER_assert(g_n >= 2 && g_kind[0] == K_U16 && g_key[0] == SVC_PRIO_KEY && g_val[0] == B16(r0) && g_kind[1] == K_STR && g_key[1] == SVC_TARGET_KEY && g_name_at[0] == r0 + 2, "C04: SVCB/HTTPS priority and target as laid out in RFC 9460");
+#define TLV_AT (r0 + 2 + NLEN)
+#define TLV_K 2
+#define TLV_KEY SVC_PARAMS_KEY
+#endif
+#ifdef TLV_K
+  { size_t o = TLV_AT; int k = TLV_K;
     for (int i = 0; i < 3; i++) if (o < r0 + rdlen) {
-      __CPROVER_assert(o + 4 <= r0 + rdlen && k < g_n && g_kind[k] == K_OPT && g_opt[k] == B16(o) && g_len[k] == B16(o + 2), "C04: every option on the wire is reported with its code and length, in order (also a final empty one)");
-      if (k < 5) for (size_t j = 0; j < 4; j++) if (j < g_len[k]) __CPROVER_assert(g_optval[k - 3][j] == g_msg[o + 4 + j], "C04: option value bytes as on the wire");
+      __CPROVER_assert(o + 4 <= r0 + rdlen && k < g_n && g_kind[k] == K_OPT && g_key[k] == TLV_KEY && g_opt[k] == B16(o) && g_len[k] == B16(o + 2), "C04: every option / parameter on the wire is reported with its code and length, in order (also a final empty one)");
+      if (k - TLV_K < 2) for (size_t j = 0; j < 4; j++) if (j < g_len[k]) __CPROVER_assert(g_optval[k - TLV_K][j] == g_msg[o + 4 + j], "C04: option value bytes as on the wire");
       o += 4 + B16(o + 2); k++;
     }
     __CPROVER_assert(o < r0 + rdlen || (g_n == k && g_buf.offset == o), "C04: no option is invented or dropped"); }
+#endif
+#ifdef CHECK_TLSA
+  __CPROVER_assert(g_n == 4 && g_key[0] == ARES_RR_TLSA_CERT_USAGE && g_val[0] == g_msg[r0] && g_key[1] == ARES_RR_TLSA_SELECTOR && g_val[1] == g_msg[r0 + 1] && g_key[2] == ARES_RR_TLSA_MATCH && g_val[2] == g_msg[r0 + 2], "C04: TLSA usage / selector / matching type bytes (RFC 6698)");
+  __CPROVER_assert(g_kind[3] == K_BIN && g_key[3] == ARES_RR_TLSA_DATA && g_len[3] == rdlen - 3 && g_buf.offset == r0 + rdlen, "C04: TLSA certificate association data is the rest of the RDATA");
+  for (size_t i = 0; i < 8; i++) if (i < g_len[3]) __CPROVER_assert(g_bin[i] == g_msg[r0 + 3 + i], "C04: TLSA data bytes as on the wire");
 #endif
 }
 #endif
